@@ -67,16 +67,36 @@ def run_cfg(ctx, p, cfg):
     with ctx.rule("Q2", "fires at or after the instant", cfg) as r:
         f = p.fn(TRIG)
         rets = q.ret_assignments(f)
-        r.require(len(rets) == 1 and q.classify_ret(rets[0][1]) == "ok", "single-ok-return", fn=f, detail=str([show(e, 3) for b, e in rets]))
-        payload = dict(rets[0][1][3]).get("0") if rets and rets[0][1][0] == "agg" else None
-        nf = cmp_nf(payload) if payload else None
+        okrets = [(b, e) for b, e in rets if q.classify_ret(e) == "ok"]
+        now = lambda e: any(x[0] == "call" and x[1] in ("chrono::offset::local::Local::now",) for x in walk(e))
+        nxt = lambda e: any(x[0] == "call" and x[1].endswith("RwLock::<T>::write") for x in walk(e))
+        nf = None
+        payload = None
+        if len(okrets) == 1:
+            # Ok(now >= next)
+            payload = dict(okrets[0][1][3]).get("0") if okrets[0][1][0] == "agg" else None
+            nf = cmp_nf(payload) if payload else None
+            r.ok("single-ok-return", fn=f, detail="one Ok return carrying the comparison")
+        else:
+            # `if now < next { return Ok(false) } ...; Ok(true)`: the condition under which Ok(true) is returned
+            consts = {}
+            for b, e in okrets:
+                pl = deep_strip(dict(e[3]).get("0")) if e[0] == "agg" else None
+                if pl and pl[0] == "const" and pl[1] == "bool":
+                    consts.setdefault(pl[2], []).append(b)
+            shape = len(okrets) == 2 and set(consts) == {True, False} and len(rets) == len(okrets)
+            r.require(shape, "single-ok-return", fn=f, detail="Ok returns: %s" % [show(e, 3) for b, e in okrets])
+            if shape:
+                tb, fb = consts[True][0], consts[False][0]
+                ct = [(sb, si, {si.label(v) for v, _ in al}) for sb, si, al in f.conditions(tb) if cmp_nf(si.discr, True) is not None]
+                cf = [(sb, si, {si.label(v) for v, _ in al}) for sb, si, al in f.conditions(fb) if cmp_nf(si.discr, True) is not None]
+                if len(ct) == 1 and len(cf) == 1 and ct[0][0] == cf[0][0] and ct[0][2] in ({True}, {False}) and cf[0][2] == {not list(ct[0][2])[0]}:
+                    nf = cmp_nf(ct[0][1].discr, list(ct[0][2])[0])
         ok = False
         if nf:
             op, a, b = nf
-            now = lambda e: any(x[0] == "call" and x[1] in ("chrono::offset::local::Local::now",) for x in walk(e))
-            nxt = lambda e: any(x[0] == "call" and x[1].endswith("RwLock::<T>::write") for x in walk(e))
             ok = op == "Le" and nxt(a) and now(b)
-        r.require(ok, "now-ge-next", fn=f, detail="returned comparison normal form: %s" % (show(("cmp",) + nf, 6) if nf else show(payload, 5)))
+        r.require(ok, "now-ge-next", fn=f, detail="Ok(true) is returned exactly when next <= now: %s" % (show(("cmp",) + nf, 6) if nf else (show(payload, 5) if payload else None)))
 
     with ctx.rule("Q3", "once per boundary", cfg) as r:
         f = p.fn(TRIG)
@@ -98,11 +118,17 @@ def run_cfg(ctx, p, cfg):
                 r.require(span.covers(b), "reschedule-under-same-lock", fn=f, detail="the new instant is stored while the same guard is held")
                 gate = []
                 for sb, si, al in f.conditions(b):
-                    nf = cmp_nf(si.discr, True)
-                    if nf and nf[0] in ("Le", "Lt"):
-                        gate.append({si.label(x) for x, _ in al})
-                r.require(gate == [{True}], "reschedule-only-when-fired", fn=f, detail="the store is control-dependent on the comparison being true")
-                r.require(any(x[0] == "call" and x[1] == NEW for x in walk(v)), "from-a-fresh-schedule", fn=f, detail="stored value %s" % show(v, 6))
+                    labs = {si.label(x) for x, _ in al}
+                    if cmp_nf(si.discr, True) is not None and labs in ({True}, {False}):
+                        nfl = cmp_nf(si.discr, True in labs)
+                        gate.append(nfl is not None and nfl[0] == "Le" and any(x[0] == "call" and x[1].endswith("RwLock::<T>::write") for x in walk(nfl[1]))
+                                    and any(x[0] == "call" and x[1] == "chrono::offset::local::Local::now" for x in walk(nfl[2])))
+                r.require(gate == [True], "reschedule-only-when-fired", fn=f, detail="the store is control-dependent on next <= now (the edge on which the trigger fires)")
+                g_, _site = next_time_fn(p)
+                fresh = any(x[0] == "call" and x[1] == NEW for x in walk(v)) or any(
+                    x[0] == "call" and x[1] == g_.path and x[2] and any(y[0] == "call" and y[1] == "chrono::offset::local::Local::now" for y in walk(x[2][0]))
+                    and not any(y[0] == "call" and "RwLock" in y[1] for y in walk(x[2][0])) for x in walk(v))
+                r.require(fresh, "from-a-fresh-schedule", fn=f, detail="the stored instant is computed from a fresh reading of the clock (TimeTrigger::new or the schedule function applied to Local::now()): %s" % show(v, 6))
                 news = [x for x in walk(v) if x[0] == "call" and x[1] == NEW]
                 if news:
                     r.require(deep_strip(news[0][2][0])[0] == "field" and deep_strip(news[0][2][0])[1] == ("param", 1), "with-own-config", fn=f, detail="TimeTrigger::new(self.config)")
@@ -196,11 +222,14 @@ def run_cfg(ctx, p, cfg):
         r.require(len(gr) == 1, "one-gen_range", fn=n, detail="gen_range sites: %d" % len(gr))
         for c in gr:
             gate = []
+            rng0 = [x for x in walk(c.arg(1)) if x[0] == "agg" and x[1].endswith("::Range")]
+            end0 = deep_strip(dict(rng0[0][3])["end"]) if rng0 else None
             for sb, si, al in n.conditions(c.block):
-                nf = cmp_nf(si.discr, True)
-                if nf and nf[0] == "Lt" and deep_strip(nf[1]) == ("const", "int", 0):
-                    gate.append(({si.label(x) for x, _ in al}, deep_strip(nf[2])))
-            r.require(len(gate) == 1 and gate[0][0] == {True}, "only-when-delay-positive", fn=n, site=c.at, detail="gen_range is control-dependent on max_random_delay > 0")
+                labs = {si.label(x) for x, _ in al}
+                z = q.zero_test(si, end0) if end0 is not None else None
+                if z is not None and labs in ({True}, {False}):
+                    gate.append(({True} if labs == {not z} else {False}, end0))
+            r.require(len(gate) == 1 and gate[0][0] == {True}, "only-when-delay-positive", fn=n, site=c.at, detail="gen_range is control-dependent on max_random_delay being non-zero (> 0)")
             rng = [x for x in walk(c.arg(1)) if x[0] == "agg" and x[1].endswith("::Range")]
             okr = bool(rng) and deep_strip(dict(rng[0][3])["start"]) == ("const", "int", 0) and gate and deep_strip(dict(rng[0][3])["end"]) == gate[0][1]
             r.require(okr, "range-0-to-max", fn=n, site=c.at, detail="range %s" % (show(rng[0], 4) if rng else None))
